@@ -717,6 +717,13 @@ class Executor:
         st.heap.set(SV(REF("object"), r.v), "$alloc", mk_bool(True))
         if self.written_fields is not None:
             self.written_fields.add("object.$alloc")
+        st.ghost = dict(st.ghost)
+        st.ghost["$my_allocs"] = tuple(st.ghost.get("$my_allocs", ())) + (r.v,)
+        for fname, val in getattr(self.w, "alloc_defaults", {}).get(cls, {}).items():
+            st.heap.set(r, fname, self.lit(val))  # ghost state of a fresh object
+        ah = getattr(self.w, "alloc_hooks", {}).get(cls)
+        if ah is not None:
+            ah(self, st, r)
         cid = getattr(self.w, "class_ids", {}).get(cls)
         if cid is not None and "object.$class" in self.w.schema.fields:
             st.heap.set(SV(REF("object"), r.v), "$class", mk_int(cid))
@@ -875,7 +882,7 @@ class Executor:
             if isinstance(h, Contract):
                 yield from self.apply_contract(h, ([d.bound] if d.bound is not None else []) + args, kwargs, st, sink, node)
             else:
-                yield from h(self, args, kwargs, st, sink, node)
+                yield from h(self, ([d.bound] if d.bound is not None else []) + args, kwargs, st, sink, node)
             return
         if isinstance(d, ExcClassD):
             e = ExcV(d.names[0], args)
@@ -1175,7 +1182,8 @@ class Executor:
     def set_field(self, st, ref: SV, name: str, val: SV):
         fd = st.heap.fd(ref.ty.cls, name)
         mon = self.w.monitor_guarding(ref.ty.cls, name)
-        if mon is not None and not st.ghost.get("$constructing"):
+        constructing = self.frame is not None and self.frame.qualname.endswith(".__init__") and "self" in st.locals and st.locals["self"].ty.kind == "ref" and z3.eq(st.locals["self"].v, ref.v)
+        if mon is not None and not constructing:
             lock = st.heap.get(SV(REF(mon.cls), ref.v), mon.lockfield)
             self.oblige(st, "lock", f"{mon.cls}.{name}:written-under-{mon.lockfield}", HeapView(st.heap, st.held).holds(lock.v))
         if self.written_fields is not None:
@@ -1501,11 +1509,21 @@ class Executor:
                 st2.held = st2.held + (cm.v,)
                 if mon is not None and not reentrant:
                     for f in mon.protected:
-                        st2.heap.havoc_at(SV(REF(mon.cls), owner.v), f)
+                        nv = st2.heap.havoc_at(SV(REF(mon.cls), owner.v), f)
                         if self.written_fields is not None:
                             self.written_fields.add(st2.heap.fd(mon.cls, f).key)
+                        # whatever other threads stored meanwhile cannot be an object this invocation allocated and has not published yet
+                        for mine in st2.ghost.get("$my_allocs", ()):
+                            if nv.ty.kind == "ref":
+                                st2.assume(nv.v != mine)
+                            elif nv.ty.kind == "set" and nv.ty.elem.kind == "ref":
+                                st2.assume(z3.Not(z3.Select(nv.v, mine)))
+                            elif nv.ty.kind == "seq" and nv.ty.elem.kind == "ref":
+                                st2.assume(z3.Not(z3.Contains(nv.v, z3.Unit(mine))))
                     hv = HeapView(st2.heap, st2.held)
                     st2.assume(*[f_ for _, f_ in mon.invariant_assume(hv, owner.v)])
+                    if self.cur_contract is not None and self.cur_contract.stable_at_acquire is not None and self.depth == 0:
+                        st2.assume(*self.cur_contract.stable_at_acquire(Args(self.inputs), hv))
                     if self.cur_contract is not None and self.cur_contract.linearize_at_lock and not st2.ghost.get("$linearized"):
                         st2.ghost = dict(st2.ghost)
                         st2.ghost["$linearized"] = HeapView(st2.heap.copy(), st2.held)
@@ -1686,7 +1704,8 @@ class Executor:
             seq_len, elem_at = self.iter_model(iterable, st)
             st.locals[kname] = mk_int(0)
         # 1. invariant on entry
-        L = LoopCtx(self, st, kname if is_for else None, iterable)
+        pre_view = HeapView(st.heap.copy(), st.held)
+        L = LoopCtx(self, st, kname if is_for else None, iterable, pre_view)
         for label, f in spec.invariant(L):
             self.oblige(st, "inv-init", f"loop{key[1]}:{label}", f)
         # 2. arbitrary iteration
@@ -1706,8 +1725,10 @@ class Executor:
                 cell_keys.setdefault(fd.key, []).append(ref.t if isinstance(ref, SV) else ref)
                 body.heap.havoc_at(SV(REF(cls), ref.t if isinstance(ref, SV) else ref), field)
         body_entry_arrays = {k: list(body.heap.field_terms(k)) for k in cell_keys}
-        Lb = LoopCtx(self, body, kname if is_for else None, iterable)
+        Lb = LoopCtx(self, body, kname if is_for else None, iterable, pre_view)
         body.assume(*[f for _, f in spec.invariant(Lb)])
+        if spec.invariant_assume is not None:
+            body.assume(*spec.invariant_assume(Lb))
         saved_written = self.written_fields
         self.written_fields = set()
         v0 = spec.variant(Lb) if spec.variant else None
@@ -1715,7 +1736,7 @@ class Executor:
         def after_iteration(s, kind):
             if is_for:
                 s.locals[kname] = mk_int(s.locals[kname].v + 1)
-            Ls = LoopCtx(self, s, kname if is_for else None, iterable)
+            Ls = LoopCtx(self, s, kname if is_for else None, iterable, pre_view)
             for label, f in spec.invariant(Ls):
                 self.oblige(s, "inv-pres", f"loop{key[1]}:{label}", f)
             if v0 is not None:
@@ -1817,6 +1838,9 @@ class Executor:
         for name in pynames:
             if name not in c.params:
                 raise Unsupported(f"contract {c.target}: real parameter {name} has no declared type")
+        for va in (fn.args.vararg, fn.args.kwarg):
+            if va is not None:
+                params[va.arg] = fresh(ANY, va.arg)  # *args / **kwargs: opaque, only ever passed on
         for name, v in params.items():
             for r in _refs_in(v):
                 st.assume(z3.Or(r == 0, self.alloc_sel(st.heap, r)))
@@ -1824,7 +1848,9 @@ class Executor:
                 if v.ty.kind == "ref":
                     st.assume(v.v > 0)
         a = Args(params)
-        h0 = HeapView(st.heap.copy())
+        if getattr(c, "held_on_entry", None):
+            st.held = tuple(c.held_on_entry(a, HeapView(st.heap)))  # the contract says the caller holds these locks
+        h0 = HeapView(st.heap.copy(), st.held)
         for label, f in c.requires(a, h0):
             st.assume(f)
         if not self.feasible(st):
